@@ -23,7 +23,8 @@ def prod_body():
     return "P%d" % V
 {producer_def}
 def read_value():
-    return "read:" + dds.load("/c09/p")
+    {read_import}
+    return "read:" + {load_name}("/c09/p")
 def kept_reader():
     CALLS.append("reader")
     return read_value()
@@ -55,8 +56,13 @@ def main():
     sys.path.insert(0, d)
     n = 0
     try:
-        for prod_kind, placement, when in itertools.product(("keep", "data_function"), ("inline", "top", "helper", "kept"), ("before", "after", "after_populated", "earlier", "never")):
+        STYLES = {"module": ("pass", "dds.load"), "local_import": ("import dds", "dds.load"), "local_import_as": ("import dds as d2", "d2.load"), "local_from_import": ("from dds import load as ld", "ld")}
+        cases = [(pk, pl, wh, "module") for pk, pl, wh in itertools.product(("keep", "data_function"), ("inline", "top", "helper", "kept"), ("before", "after", "after_populated", "earlier", "never"))]
+        # how the reading function gets hold of dds: module-level import (above) or an import inside the function body
+        cases += [("keep", pl, wh, st) for pl, wh, st in itertools.product(("top", "kept"), ("before", "earlier", "after"), ("local_import", "local_import_as", "local_from_import"))]
+        for prod_kind, placement, when, style in cases:
             n += 1
+            read_import, load_name = STYLES[style]
             if prod_kind == "keep":
                 producer_def = ""
                 produce_call = 'dds.keep("/c09/p", prod_body)'
@@ -73,11 +79,11 @@ def main():
                 root_body = "return %s" % read
             name = "c09_mod_%d" % n
             with open(os.path.join(d, name + ".py"), "w") as f:
-                f.write(TEMPLATE.format(producer_def=producer_def, helper_body=helper_body, root_body=root_body, produce_call=produce_call))
+                f.write(TEMPLATE.format(producer_def=producer_def, helper_body=helper_body, root_body=root_body, produce_call=produce_call, read_import=read_import, load_name=load_name))
             m = importlib.import_module(name)
             dds.accept_module(m)
             dds.set_store("memory")
-            tag = "producer=%s placement=%s producer-%s" % (prod_kind, placement, when)
+            tag = "producer=%s placement=%s producer-%s%s" % (prod_kind, placement, when, "" if style == "module" else " (the reader does `%s` inside its body)" % read_import)
             results = []
             if when == "after_populated":
                 # the path was committed by an earlier evaluation; then a dependency of the producer is edited
@@ -107,6 +113,10 @@ def main():
                 cls = None
                 if when == "after" and all(isinstance(g, str) and (g.startswith("read:") or g.startswith("<")) for g in got):
                     cls = "read_before_produce_not_rejected"
+                if style in ("local_import_as", "local_from_import"):
+                    # a name bound by an import statement inside the function body (other than the module's own name) is
+                    # not resolvable by the analysis: the load is invisible to it
+                    cls = "load_through_function_local_import_alias"
                 note(cls, "%s: results for V=1, V=2 are %r, expected %r" % (tag, got, want))
             elif placement == "kept" and when in ("before", "earlier"):
                 # the kept reader must re-run when the path serves another result, and be served from the store otherwise
@@ -117,7 +127,7 @@ def main():
     finally:
         sys.path.remove(d)
         shutil.rmtree(d, ignore_errors=True)
-    print(json.dumps({"scope": "2 producer kinds x 3 load placements x 4 producer positions x history (V=1 fresh, V=2 populated)", "evaluations": evals, "distinct_nontrivial": n, "exhaustive": True,
+    print(json.dumps({"scope": "2 producer kinds x 4 load placements x 5 producer positions x history (V=1 fresh, V=2 populated) + 18 cases where the reader imports dds inside its body (import / import as / from import)", "evaluations": evals, "distinct_nontrivial": n, "exhaustive": True,
                       "rule": "one case per (producer kind, placement, position); each evaluated twice with a changed dependency", "samples": samples, "violations": violations,
                       "known_hits": ["bounded:%s (%d cases, e.g. %s)" % (c, len(w), w[0][:170]) for c, w in sorted(known.items())]}))
 
